@@ -291,13 +291,17 @@ def run_single_case(ctx, case, rng):
     t = draw_transform(rng, tr, nch)
     if tr.startswith("gain") and rng.random() < 0.5:
         # the base record stored as raw ADC counts (integer type); the scaled copy is a float array of the same samples times the gain
-        counts = float(rng.choice([300, 4000]))
-        dt_ = np.int16 if counts < 1000 else np.int32
-        data = np.clip(np.round(data / np.std(data) * counts), -32000 if dt_ is np.int16 else -2**30, 32000 if dt_ is np.int16 else 2**30).astype(dt_)
+        # (int32: scipy's spectral estimators work in double precision for it; they deliberately use single precision for int16 input)
+        data = np.round(data / np.std(data) * float(rng.choice([1500, 4000]))).astype(np.int32)
         ctx.state("base record of integer type")
+    data_stored = data
+    data = data.astype(float)  # reference run and rounding probe on the float copy of the same samples
     base = run_single(data, fs, spec, sel, ref)
     probe = run_single(data * (1 + 1e-15 * rng.standard_normal(data.shape)), fs, spec, sel, ref)
     fscale, T, tol = 1.0, (lambda p: p), 1e-6
+    if data_stored.dtype.kind in "iu":
+        # the same samples in their integer storage type are the gain-1 case
+        compare(ctx, tr, alg, base, run_single(data_stored, fs, spec, sel, ref), probe, 1.0, (lambda p: p), 1e-9)
     if tr.startswith("gain"):
         other = run_single(data * t["g"], fs, spec, sel, ref)
         if tr == "gain_pow2":
@@ -360,9 +364,13 @@ def run_multi_case(ctx, case, rng):
         sd = float(np.std(data))
         datasets = [np.round(d / sd * 4000).astype(np.int32) for d in datasets]  # raw counts
         ctx.state("base record of integer type")
+    stored = datasets
+    datasets = [d.astype(float) for d in datasets]
     base = run_multi(datasets, reflist, fs, spec, sel)
     probe = run_multi([d * (1 + 1e-15 * rng.standard_normal(d.shape)) for d in datasets], reflist, fs, spec, sel)
     fscale, T, tol = 1.0, (lambda p: p), 1e-6
+    if stored[0].dtype.kind in "iu":
+        compare(ctx, tr, alg, base, run_multi(stored, reflist, fs, spec, sel), probe, 1.0, (lambda p: p), 1e-9)
     if tr.startswith("gain"):
         t = draw_transform(rng, tr, ndof)
         other = run_multi([d * t["g"] for d in datasets], reflist, fs, spec, sel)
